@@ -205,7 +205,40 @@ def merge(items):
             continue
         else:
             out.append(it)
-    return out
+    return rotate(out)
+
+
+def rotate(items):
+    """A (s X)* s B  ==  A s (X s)* B : a repetition whose items start with the literal that also follows the repetition
+    is rewritten so that its items END with it (separator-led lines become separator-terminated lines)"""
+    changed = True
+    while changed:
+        changed = False
+        for k in range(len(items) - 1):
+            r, nxt = items[k], items[k + 1]
+            if not (isinstance(r, Rep) and r.sep is None and r.items and isinstance(r.items[0], Lit) and len(r.items) > 1 and isinstance(nxt, Lit)):
+                continue
+            s_ = r.items[0].text
+            if not s_ or not nxt.text.startswith(s_):
+                continue
+            body = list(r.items[1:])
+            if isinstance(body[-1], Lit):
+                body[-1] = Lit(body[-1].text + s_)
+            else:
+                body.append(Lit(s_))
+            new = items[:k]
+            if new and isinstance(new[-1], Lit):
+                new[-1] = Lit(new[-1].text + s_)
+            else:
+                new.append(Lit(s_))
+            new.append(Rep(r.chain, body, None))
+            rest = nxt.text[len(s_):]
+            if rest:
+                new.append(Lit(rest))
+            items = new + items[k + 2:]
+            changed = True
+            break
+    return items
 
 
 class Line:
